@@ -120,3 +120,6 @@ for u in C01.UNITS:
     if u.name == 'ThermochemGroupAdditive.__init__':
         u.world_factory = C01.world
         UNITS.append(u)
+
+from . import standins
+STANDINS = [standins.c06_edges]
